@@ -83,7 +83,7 @@ func extractUtxo() {
 	} else {
 		for _, c := range calls(fd.Body) {
 			if strings.HasPrefix(c.name, "reporter.") || strings.HasPrefix(c.name, "s.cfg.") ||
-				c.name == "s.dequeueAtHeight" || c.name == "newBatchSpendReporter" {
+				c.name == "s.dequeueAtHeight" || c.name == "newBatchSpendReporter" || c.name == "failRequests" {
 				seq = append(seq, c.name)
 			}
 		}
@@ -177,6 +177,27 @@ func extractUtxo() {
 	if capacity == "" {
 		capacity = "0"
 	}
+	// 7. Result: `if r.result != nil { return ... }` before the select
+	cacheFirst := false
+	if fd := funcDecl(fs, "GetUtxoRequest", "Result"); fd == nil {
+		fail("utxoscanner.go: method GetUtxoRequest.Result")
+	} else {
+		seenIf := false
+		for _, st := range fd.Body.List {
+			switch v := st.(type) {
+			case *ast.IfStmt:
+				if strings.Join(strings.Fields(src(v.Cond)), " ") == "r.result != nil" && len(v.Body.List) == 1 {
+					if _, ok := v.Body.List[0].(*ast.ReturnStmt); ok {
+						seenIf = true
+					}
+				}
+			case *ast.SelectStmt:
+				cacheFirst = seenIf
+			}
+		}
+	}
+	l.def("resultChecksCacheFirst", "Bool", lbool(cacheFirst), "Result returns the cached result, when there is one, before it selects on the channel")
+	shape["resultChecksCacheFirst"] = cacheFirst
 	l.def("resultChanCap", "Nat", capacity, "capacity of the request's result channel as made by Enqueue")
 	shape["deliverNonBlocking"], shape["resultChanCap"] = nonBlocking, capacity
 	facts["utxo"] = shape
